@@ -190,6 +190,9 @@ fn dump(req: &J) -> J {
             Inner::Case(..) => "case",
             Inner::AssertL(_, cmr) => {
                 o.insert("cmr".into(), json!(hex(cmr.as_ref())));
+                if *cmr == Cmr::fail(simplicity::FailEntropy::ZERO) {
+                    o.insert("failcmr".into(), json!(true));
+                }
                 if let Some(call) = symbols.get(cmr) {
                     o.insert("marker".into(), json!({"text": call.text(), "kind": format!("{:?}", call.name())}));
                 }
@@ -197,6 +200,9 @@ fn dump(req: &J) -> J {
             }
             Inner::AssertR(cmr, _) => {
                 o.insert("cmr".into(), json!(hex(cmr.as_ref())));
+                if *cmr == Cmr::fail(simplicity::FailEntropy::ZERO) {
+                    o.insert("failcmr".into(), json!(true));
+                }
                 if let Some(call) = symbols.get(cmr) {
                     o.insert("marker".into(), json!({"text": call.text(), "kind": format!("{:?}", call.name())}));
                 }
